@@ -49,7 +49,15 @@ def flatten(module, fname, depth=0, seen=()):
     steps = []
     assigns = {}
     last_raise = False
-    for st in fn.body:
+    def ordered(body):
+        """statements in evaluation order, descending into if/else arms (a recogniser tried in an else arm comes after the
+        one tested by the if)"""
+        for st_ in body:
+            yield st_
+            if isinstance(st_, ast.If):
+                yield from ordered(st_.body)
+                yield from ordered(st_.orelse)
+    for st in ordered(fn.body):
         last_raise = False
         if isinstance(st, ast.Assign) and isinstance(st.value, ast.Call):
             r = _recogniser(st.value, assigns)
